@@ -51,7 +51,7 @@ def shift_program(q):
         k = n.get("k")
         if k == "truth":
             raise NotShiftable("truth")       # condition position: truthiness is the meaning
-        if k == "pred" and n["p"] in ("p_pos",):
+        if k == "pred" and n["p"] in ("p_pos", "p_qge2"):      # truthiness / an absolute threshold is the meaning
             raise NotShiftable(n["p"])
         if k == "mcall":
             if n["m"] in ("is_small", "count"):
